@@ -149,6 +149,7 @@ inductive LKind where
   | st (nfields : Nat) (fields : List LField)
   | str
   | iface
+  | nptr (elem : String)      -- `type T *Elem`, Elem a named struct of the library: a pointer KIND with an empty method set
 deriving Repr, Inhabited
 
 structure LibInfo where
@@ -188,6 +189,13 @@ def libInfo : String → Option LibInfo
   | "DirIU" => some { kind := .iface, uj := .val, size := 16, hasPtr := true }     -- interface{ json.Unmarshaler }
   | "DirIT" => some { kind := .iface, ut := .val, size := 16, hasPtr := true }     -- interface{ encoding.TextUnmarshaler }
   | "DirIM" => some { kind := .iface, size := 16, hasPtr := true }                 -- interface{ M() }
+  | "DirRef" => some { kind := .nptr "MV", size := 8, hasPtr := true }             -- type DirRef *MV (finding C09-jitdec-namedptr-inline-depth)
+  | _ => none
+
+/-- the element of a named pointer type -/
+def nptrElem (n : String) : Option String :=
+  match libInfo n with
+  | some { kind := .nptr e, .. } => some e
   | _ => none
 
 def isIfaceLib (n : String) : Bool :=
